@@ -2,11 +2,12 @@
 package main
 
 import (
-	"runtime/pprof"
 	"flag"
 	"fmt"
 	"os"
 	"path/filepath"
+	"runtime/pprof"
+	"sort"
 
 	"verif/checker/internal/core"
 	"verif/checker/internal/load"
@@ -39,6 +40,40 @@ func main() {
 		} else {
 			*root = "/verif"
 		}
+	}
+	if *prop == "all" {
+		// development aid (never a manifest command): every property on one load of the repository
+		prog, err := load.Load(*repo)
+		if err != nil {
+			fmt.Fprintln(os.Stderr, "load:", err)
+			os.Exit(2)
+		}
+		ids := make([]string, 0, len(props.All))
+		for id := range props.All {
+			ids = append(ids, id)
+		}
+		sort.Strings(ids)
+		code := 0
+		for _, id := range ids {
+			func() {
+				run := core.NewRun(id, *tier, props.All[id].Level, *root)
+				defer func() {
+					if r := recover(); r != nil {
+						run.Undecided("checker", "panic", "-", fmt.Sprintf("checker panic: %v", r))
+						if run.Finish() != 0 {
+							code = 1
+						}
+					}
+				}()
+				run.Count("packages_loaded", len(prog.All))
+				run.Count("moq_packages", len(prog.Moq))
+				props.All[id].Check(&props.Ctx{Prog: prog, Run: run, Tier: *tier})
+				if run.Finish() != 0 {
+					code = 1
+				}
+			}()
+		}
+		exit(code)
 	}
 	p, ok := props.All[*prop]
 	if !ok {
